@@ -68,3 +68,45 @@ pub fn sudoku_event(kind: u8, row: usize, col: usize, digit: i32) {
 pub fn sudoku_record_take() -> Vec<(u8, usize, usize, i32)> {
     SUDOKU_EVENTS.with(|c| c.borrow_mut().take().unwrap_or_default())
 }
+
+// H9: recorder for the root LP step of `search_with_timeout_and_memory`. Off by default; while
+// switched on it keeps (a) the linear system's variable order and the `LpProblem` handed to the LP
+// solver, (b) what the solver returned (status code as in `root_lp_status_code`, point, objective)
+// or that it returned `Err`, (c) the variable store right after `apply_lp_solution` succeeded.
+#[derive(Debug, Clone, Default)]
+pub struct RootLpRecord {
+    pub system_vars: Vec<crate::variables::VarId>,
+    pub problem: Option<crate::lpsolver::LpProblem>,
+    /// `Some((status code, x, objective))` for `Ok(solution)`, `None` while unset or for `Err(_)`
+    pub solution: Option<(u8, Vec<f64>, f64)>,
+    pub solver_err: bool,
+    pub vars_after: Option<crate::variables::Vars>,
+}
+thread_local! {
+    static ROOT_LP_RECORD: std::cell::RefCell<Option<RootLpRecord>> = const { std::cell::RefCell::new(None) };
+}
+/// 0 = Optimal, 1 = Infeasible, 2 = Unbounded, 3 = any other status
+pub fn root_lp_status_code(s: crate::lpsolver::LpStatus) -> u8 {
+    match s {
+        crate::lpsolver::LpStatus::Optimal => 0,
+        crate::lpsolver::LpStatus::Infeasible => 1,
+        crate::lpsolver::LpStatus::Unbounded => 2,
+        _ => 3,
+    }
+}
+pub fn root_lp_record_start() { ROOT_LP_RECORD.with(|c| *c.borrow_mut() = Some(RootLpRecord::default())); }
+pub fn root_lp_record_take() -> Option<RootLpRecord> { ROOT_LP_RECORD.with(|c| c.borrow_mut().take()) }
+pub fn record_root_lp(system_vars: &[crate::variables::VarId], p: &crate::lpsolver::LpProblem) {
+    ROOT_LP_RECORD.with(|c| if let Some(r) = c.borrow_mut().as_mut() { r.system_vars = system_vars.to_vec(); r.problem = Some(p.clone()); });
+}
+pub fn record_root_lp_solution(s: Option<&crate::lpsolver::LpSolution>) {
+    ROOT_LP_RECORD.with(|c| if let Some(r) = c.borrow_mut().as_mut() {
+        match s {
+            Some(sol) => r.solution = Some((root_lp_status_code(sol.status), sol.x.clone(), sol.objective)),
+            None => r.solver_err = true,
+        }
+    });
+}
+pub fn record_root_lp_vars_after(v: &crate::variables::Vars) {
+    ROOT_LP_RECORD.with(|c| if let Some(r) = c.borrow_mut().as_mut() { r.vars_after = Some(v.clone()); });
+}
